@@ -54,9 +54,12 @@ class _apply_dc_prediction:
     ensures = ["forall(lambda y, x: implies(inside(band, y, x), gval(band, y, x) == old(gval(band, y, x)) - pred_old(band, y, x)), trigger=lambda y, x: gval(band, y, x))"]
     invariants = {
         # reverse raster order: rows below the counter are done, the others untouched
-        1: ["forall(lambda yy, xx: implies(inside(band, yy, xx), gval(band, yy, xx) == old(gval(band, yy, xx)) - (pred_old(band, yy, xx) if yy > y else 0)), "
+        # (the explicit counter ranges keep the proof when a for loop is rewritten as a while loop)
+        1: ["-1 <= y and y < gheight(band)",
+            "forall(lambda yy, xx: implies(inside(band, yy, xx), gval(band, yy, xx) == old(gval(band, yy, xx)) - (pred_old(band, yy, xx) if yy > y else 0)), "
             "trigger=lambda yy, xx: gval(band, yy, xx))"],
-        2: ["forall(lambda yy, xx: implies(inside(band, yy, xx), gval(band, yy, xx) == old(gval(band, yy, xx)) - "
+        2: ["-1 <= x and x < gwidth(band) and 0 <= y and y < gheight(band)",
+            "forall(lambda yy, xx: implies(inside(band, yy, xx), gval(band, yy, xx) == old(gval(band, yy, xx)) - "
             "(pred_old(band, yy, xx) if (yy > y or (yy == y and xx > x)) else 0)), trigger=lambda yy, xx: gval(band, yy, xx))"],
     }
 
@@ -72,9 +75,11 @@ class _dc_prediction:
     ensures = ["forall(lambda y, x: implies(inside(band, y, x), gval(band, y, x) == gval(A0, y, x)), trigger=lambda y, x: gval(band, y, x))"]
     invariants = {
         # raster order: everything before the counter is already the original value, the rest still holds the residual
-        1: ["forall(lambda yy, xx: implies(inside(band, yy, xx), gval(band, yy, xx) == gval(A0, yy, xx) - (0 if yy < y else pred(A0, yy, xx))), "
+        1: ["0 <= y and y <= gheight(band)",
+            "forall(lambda yy, xx: implies(inside(band, yy, xx), gval(band, yy, xx) == gval(A0, yy, xx) - (0 if yy < y else pred(A0, yy, xx))), "
             "trigger=lambda yy, xx: gval(band, yy, xx))"],
-        2: ["forall(lambda yy, xx: implies(inside(band, yy, xx), gval(band, yy, xx) == gval(A0, yy, xx) - "
+        2: ["0 <= x and x <= gwidth(band) and 0 <= y and y < gheight(band)",
+            "forall(lambda yy, xx: implies(inside(band, yy, xx), gval(band, yy, xx) == gval(A0, yy, xx) - "
             "(0 if (yy < y or (yy == y and xx < x)) else pred(A0, yy, xx))), trigger=lambda yy, xx: gval(band, yy, xx))"],
     }
 
